@@ -109,7 +109,9 @@ def run_into(ck, tier, wd, replay_case=None, prop='C01'):
         cases = gen_cases(0, 0, gseeds=[replay_case['gseed']])
     else:
         cases = gen_cases(core.seed(), 4000 if thorough else 480)
-    enum_res, mism, nexec = conformance(cases, wd)
+    # two-way validation of the reference on every program (C01, and every thorough run) / on every third program (C02 quick)
+    sample = cases if (thorough or prop == 'C01' or replay_case is not None) else cases[::3]
+    enum_res, mism, nexec = conformance(sample, wd)
     if mism:
         raise core.MachineryFailure('reference semantics PyScope.tla disagrees with CPython on program %s: %s %s\n%s' % (
             mism[0][0], mism[0][1], json.dumps(mism[0][2])[:600], mism[0][3]))
